@@ -75,7 +75,7 @@ let () =
       let nset = int_of_string (next ()) in
       let sets = Stdlib.List.init nset (fun _ ->
         let umin = zs (next ()) in let cmax = zs (next ()) in let nct = zs (next ()) in
-        let prune = zs (next ()) in let cmc = zs (next ()) in let _chk = next () in
+        let prune = zs (next ()) in let cmc = zs (next ()) in let _chk = next () in let _order = next () in let _array = next () in
         { s_umin = umin; s_cmax = cmax; s_nct = nct; s_prune = prune; s_cmc = cmc }) in
       if next () <> "T" then failwith "T expected";
       let t = parse_task () in
